@@ -110,10 +110,10 @@ def main(c):
     rng = c.rng
     tables = [([0.0, 1.0, 2.0], [1.0, 3.0, 2.0], [-1.0, 0.0, 0.5, 1.0, 1.5, 2.0, 3.0]), ([1.0], [5.0], [0.0, 1.0, 2.0]),
               ([2.0, 0.0, 2.0, 1.0], [7.0, 1.0, 9.0, 3.0], [0.0, 0.5, 1.0, 1.75, 2.0, 5.0])]
-    tables += [gen_table(rng) for _ in range(c.pick(150, 1500))]
-    ex_dy = list(CORPUS_EXEC) + [gen_exec(rng, True) for _ in range(c.pick(400, 4000))]
+    tables += [gen_table(rng) for _ in range(c.pick(150, 500))]
+    ex_dy = list(CORPUS_EXEC) + [gen_exec(rng, True) for _ in range(c.pick(400, 1200))]
     ex_any = [gen_exec(rng, False) for _ in range(c.pick(300, 3000))]
-    convs = [gen_conv(rng) for _ in range(c.pick(200, 1500))]
+    convs = [gen_conv(rng) for _ in range(c.pick(200, 600))]
 
     lines = []
     for ts, vs, qs in tables:
@@ -147,7 +147,7 @@ def main(c):
         v.append("Eval vm_compute in [if converged %s %s [] [] [%s] [%s] [%s] [%s] then 1%%Z else 0%%Z]." % (
             q(eeps), q(seps), "; ".join(map(q, u)), "; ".join(map(q, s)), "; ".join("(%d%%nat, %s)" % (k, q(x)) for k, x in g),
             "; ".join("(%d%%nat, %s)" % (k, q(x)) for k, x in f)))
-    rc, mout, merr = c.coq_eval(["C48Model.v"], "\n".join(v) + "\n", timeout=900)
+    rc, mout, merr = c.coq_eval(["C48Model.v"], "\n".join(v) + "\n", timeout=1500)
     if rc != 0:
         c.report("model-eval", "model evaluation failed: " + merr[-500:], {"stderr": merr[-3000:]}, False)
         return
@@ -277,7 +277,7 @@ def main(c):
                           "attempt or dynamic scaling / more than one abscissa / at least one constraint" % (len(tables), len(ex_dy), len(ex_any), nacc, len(convs)))
     c.coverage["traces_validated_against_impl"] = len(tables) + len(ex_dy) + len(convs)
 
-    r = c.coq(["C48Model.v", "C48Spec.v", "C48Proofs.v", "Properties_C48.v"], timeout=900)
+    r = c.coq(["C48Model.v", "C48Spec.v", "C48Proofs.v", "Properties_C48.v"], timeout=1500)
     if not r.ok:
         c.coq_failures(r)
 
